@@ -20,10 +20,11 @@ import (
 func init() {
 	core.Register(core.Check{ID: "C07", Level: "exploration", Run: func(c *core.Ctx) {
 		again := edFirstUse(c, "C07")
+		waitArch := background(func() { arch386Pass(c, "C07") })
 		runC07(c)
 		historyPass(c, "C07")
 		reentrancyPass(c, "C07")
-		arch386Pass(c, "C07")
+		waitArch()
 		again()
 	}})
 }
